@@ -136,6 +136,7 @@ def fresh(script, hashseed, timeout=600):
     env['PYTHONHASHSEED'] = str(hashseed)
     env['PBR_VERSION'] = '0.0.0'
     env['PYTHONDONTWRITEBYTECODE'] = '1'
+    env['VERIF_REPO'] = os.environ.get('VERIF_REPO', '/repo')
     p = subprocess.run(['/venv/bin/python', '-B', '-c', script], env=env, capture_output=True, text=True, timeout=timeout)
     if p.returncode != 0:
         raise RuntimeError('fresh process failed: ' + p.stderr[-800:])
